@@ -384,7 +384,72 @@ def _constructions(rng, n):
     assert pconfig.RUNTIME_TYPE_CHECK is False
 
 
+def _history_cases(rng, n):
+    """the switch alone decides: with checking enabled an ill-typed construction raises InvalidTypes with exactly the
+    non-conforming fields WHATEVER happened before — earlier successful / rejected constructions, serialization round
+    trips, deserialization calls that failed part-way (a nested node missing a required key, a corrupt document)"""
+    import zoo
+    from pyoak.error import InvalidTypes
+    old = pconfig.RUNTIME_TYPE_CHECK
+    pconfig.RUNTIME_TYPE_CHECK = True
+    try:
+        for _ in range(n):
+            good = zoo.Bin(zoo.Leaf(v=1, s="a"), zoo.Un(zoo.Leaf(v=2)))
+            before = rng.choice(["failed-as_obj-nested", "failed-as_obj-top", "failed-from_json", "roundtrip", "rejected-construction",
+                                 "failed-as_obj-twice"])
+            try:
+                d = good.as_dict()
+                good.detach()
+                if before.startswith("failed-as_obj-nested") or before == "failed-as_obj-twice":
+                    del d["right"]["arg"]["id"]
+                    for _k in range(2 if before == "failed-as_obj-twice" else 1):
+                        try:
+                            zoo.Bin.as_obj(d)
+                        except Exception:  # noqa
+                            pass
+                elif before == "failed-as_obj-top":
+                    try:
+                        zoo.Bin.as_obj({"__type": "Bin", "id": "x", "left": 5})
+                    except Exception:  # noqa
+                        pass
+                elif before == "failed-from_json":
+                    try:
+                        zoo.Bin.from_json('{"__type": "Bin", "id": "q", "content_id": "q", "origin": {}, "left": {"__type": "Leaf"}}')
+                    except Exception:  # noqa
+                        pass
+                elif before == "roundtrip":
+                    zoo.Bin.as_obj(d)
+                else:
+                    try:
+                        zoo.Leaf(v="not an int")
+                    except InvalidTypes:
+                        pass
+            except Exception as e:  # noqa
+                yield Case("history", None, None, True, f"prelude {before} raised {type(e).__name__}", oracle_fail=None, sig="construct|history")
+                continue
+            fail = None
+            try:
+                zoo.Leaf(v="five", s=7, flag=True)
+                fail = "an ill-typed construction (v='five', s=7) succeeded although RUNTIME_TYPE_CHECK is True"
+            except InvalidTypes as e:
+                got = sorted(f.name for f in e.invalid_fields)
+                if got != ["s", "v"]:
+                    fail = f"invalid_fields = {got}, expected ['s', 'v']"
+            except Exception as e:  # noqa
+                fail = f"raised {type(e).__name__} instead of InvalidTypes"
+            if fail is None:
+                try:
+                    zoo.Leaf(v=3, s="ok", flag=False)
+                except Exception as e:  # noqa
+                    fail = f"a well-typed construction raised {type(e).__name__}"
+            yield Case("history", None, None, True, f"after [{before}]: Leaf(v='five', s=7, flag=True) with RUNTIME_TYPE_CHECK=True",
+                       oracle_fail=fail, sig="construct|history")
+    finally:
+        pconfig.RUNTIME_TYPE_CHECK = old
+
+
 def cases(rng: random.Random, tier: str):
+    yield from _history_cases(rng, 12 if tier == "quick" else 200)
     if tier == "quick":
         yield from _matrix_random(rng, 3000)
         yield from _constructions(rng, 1500)
